@@ -22,10 +22,15 @@ def check(run):
         pre = [S.intermediate(rng.randrange(256)) for _ in range(n_inter)]
         # UID absent / 0..20 bytes of any value; no application listed -> membership id in canonical form
         for n in range(0, 21):
+            # every length x every length of an all-zero prefix (the 000000 rule and the 14-digit cut are
+            # about exactly these), the rest non-zero bytes with letters in both nibbles
+            for z in sorted({0, 1, 2, 3, 4, max(0, n - 7), max(0, n - 4), max(0, n - 1), n}):
+                if z > n:
+                    continue
+                uid = "00" * z + "".join("%02x" % rng.choice([0xab, 0xff, 0x1c, 0xa7, 0x2f, rng.randrange(1, 256)]) for _ in range(n - z))
+                scenario(pre + [S.status_info({0x27: 0, 0x06: {"uuid": uid}})], "Ok:Member:" + (cc.canon_uid(uid) or ""))
             for _ in range(3 if th else 1):
-                uid = "".join("%02x" % rng.choice([0, 0, 0, 0xab, 0xff, rng.randrange(256)]) for _ in range(n))
-                if rng.random() < 0.3 and n >= 10:
-                    uid = "00" * (n - 4) + uid[-8:]
+                uid = "".join("%02x" % rng.randrange(256) for _ in range(n))
                 scenario(pre + [S.status_info({0x27: 0, 0x06: {"uuid": uid}})], "Ok:Member:" + (cc.canon_uid(uid) or ""))
         scenario(pre + [S.status_info({0x27: 0, 0x06: {}})], "Err:Zvt:IncompleteData")            # container without UID
         scenario(pre + [S.status_info({0x27: 0})], "Err:Zvt:IncompleteData")                        # no container at all
